@@ -71,6 +71,9 @@ type Spec struct {
 	NonHermetic bool `json:"non_hermetic,omitempty"`
 	// TrapTerm: the command's shell traps SIGTERM/SIGINT and carries on; only SIGKILL stops it.
 	TrapTerm bool `json:"trap_term,omitempty"`
+	// BinNoChmod: the command leaves its bin output non-executable and relies on grog marking
+	// it executable (documented for bin_output).
+	BinNoChmod bool `json:"bin_no_chmod,omitempty"`
 	// InPlace: the command rewrites existing file outputs in place (`gen > out`: truncate and
 	// write through the existing inode) instead of removing them first (`rm -f out; gen > out`).
 	InPlace bool `json:"in_place,omitempty"`
